@@ -637,6 +637,51 @@ func sharingCase(expire time.Duration, openers int) harness.Case {
 	}}
 }
 
+// peerKeepsAliveCase: topics that the local party started and then left alone, while a peer keeps
+// sending for them in every epoch: the local party's own sends keep a started topic alive, a peer's
+// traffic does not - after the expiry period the started entries are gone.
+func peerKeepsAliveCase(expire time.Duration) harness.Case {
+	return harness.Case{ID: fmt.Sprintf("e%d/peer-traffic-on-finished-topics", int(expire/time.Second)), Run: func(c *harness.C) {
+		c.Exec(fmt.Sprintf("[c15] e%d peer traffic on finished topics", int(expire/time.Second)))
+		rec := c.Bubble(func() {
+			s := newSim(c, expire)
+			reported := map[string]bool{}
+			s.bad = func(clause, sig, detail string) {
+				if !reported[sig] {
+					reported[sig] = true
+					c.Violation(clause, sig, fmt.Sprintf("expire=%v: %s", expire, detail), map[string]interface{}{"peer_traffic": true, "expire_s": int(expire / time.Second)})
+				}
+			}
+			for _, t := range []string{"A", "B", "C"} {
+				s.box.Send(uint8(tss.MsgTypeMPC), topicBytes(t), nil)
+			}
+			epochs := int(4 * expire / sweep)
+			for i := 0; i < epochs; i++ {
+				s.doTick()
+				for _, t := range []string{"A", "B", "C"} {
+					for _, sd := range []uint16{1, 2} {
+						s.box.HandleMessage(&tss.IncMessage{Data: []byte("late"), Source: sd, MsgType: uint8(tss.MsgTypeMPC), Topic: topicBytes(t)})
+					}
+				}
+				s.box.Send(uint8(tss.MsgTypeMPC), topicBytes("keepalive"), nil)
+			}
+			for _, k := range dump.MapKeys(s.box, "startedSending") {
+				for _, t := range []string{"A", "B", "C"} {
+					if strings.Contains(k, fmt.Sprintf("%x", []byte(t))) || strings.HasPrefix(strings.Trim(k, "\"x"), t) {
+						s.bad("resources-released", "c15-started-entry-kept-alive-by-peer-traffic", fmt.Sprintf("the local party sent on topic %s once and then left it alone for %d epochs, peers kept sending for it in every epoch: its started entry is still kept", t, epochs))
+					}
+				}
+			}
+			s.box.Stop()
+		})
+		if rec != nil && !harness.IsLeakPanic(rec) {
+			panic(rec)
+		}
+		c.Add("executions", 1)
+		c.Outcome(fmt.Sprintf("%v|peer-keeps-alive", expire))
+	}}
+}
+
 // histCase: one fixed history (floods, topics that resemble one another).
 func histCase(expire time.Duration, name string, h []op) harness.Case {
 	return harness.Case{ID: fmt.Sprintf("e%d/%s", int(expire/time.Second), name), Run: func(c *harness.C) {
@@ -665,6 +710,7 @@ func gen(c *harness.C) []harness.Case {
 		for _, n := range []int{2, 3, 5} {
 			cases = append(cases, sharingCase(e, n))
 		}
+		cases = append(cases, peerKeepsAliveCase(e))
 		// floods far beyond the limit (counters of any width must not come round again)
 		floods := []int{255, 256, 257, 358, 513, 1000}
 		if c.Thorough() {
